@@ -1003,6 +1003,152 @@ def synthetic_libs(ctx, from_string, load_schema_version, tmp):
     ctx.check_time()
 
 
+SECTIONS = [("unit_classes", "unitClassDefinitions", "unitClassDefinition", "UnitClasses"),
+            ("units", None, None, "Units"),
+            ("unit_modifiers", "unitModifierDefinitions", "unitModifierDefinition", "UnitModifiers"),
+            ("value_classes", "valueClassDefinitions", "valueClassDefinition", "ValueClasses"),
+            ("attributes", "schemaAttributeDefinitions", "schemaAttributeDefinition", "Attributes"),
+            ("properties", "propertyDefinitions", "propertyDefinition", "Properties")]
+
+
+def _sentry(el, lib):
+    attrs = []
+    for a in el.findall("attribute") + el.findall("property"):
+        attrs.append([a.findtext("name"), ",".join(v.text or "" for v in a.findall("value"))])
+    return {"name": el.findtext("name"), "attrs": sorted(attrs), "lib": lib}
+
+
+def read_sections(root, lib):
+    """our own reading of the name-keyed sections of one XML tree (entries in file order)"""
+    out = {}
+    for key, sec, item, _ in SECTIONS:
+        if sec is None:
+            continue
+        el = root.find(sec)
+        out[key] = [] if el is None else [_sentry(x, lib) for x in el.findall(item)]
+    ucs = root.find("unitClassDefinitions")
+    out["units"] = [] if ucs is None else [_sentry(u, lib) for uc in ucs.findall("unitClassDefinition") for u in uc.findall("unit")]
+    return out
+
+
+def synthetic_sections(ctx, from_string, load_schema_version):
+    """generated partnered libraries (on 8.2.0) with unit classes, units, unit modifiers, value classes, schema attributes
+    and properties of their own - new names, names the partner already has, bare placeholders of a partner's unit class
+    carrying a new unit: loaded sections (names in dictionary order, attributes, inLibrary flags, duplicate record)
+    against `mergeSection`, and the partner's entries must come out unchanged (`section_conservative`)"""
+    from hed.errors.exceptions import HedFileError
+    from hed.schema.hed_schema_constants import HedSectionKey
+    rng = ctx.rng
+    skeleton = load_schema_version("testlib_2.0.0").get_as_xml_string(save_merged=False)
+    std_root = ET.parse(schema_xml.bundled()["8.2.0"]).getroot()
+    base = read_sections(std_root, False)
+    std_names = {k: [e["name"] for e in v] for k, v in base.items()}
+
+    def ent(parent, tag, name, attrs=(), desc="generated"):
+        el = ET.SubElement(parent, tag)
+        ET.SubElement(el, "name").text = name
+        if desc:
+            ET.SubElement(el, "description").text = desc
+        for k, v in attrs:
+            a = ET.SubElement(el, "attribute")
+            ET.SubElement(a, "name").text = k
+            if v is not None:
+                ET.SubElement(a, "value").text = v
+        return el
+    libs = []
+    for n in range(24 if ctx.quick() else 150):
+        root = ET.fromstring(skeleton)
+        uc = root.find("unitClassDefinitions")
+        tag = f"v{n}"
+        for _ in range(rng.randint(0, 2)):
+            k = rng.random()
+            if k < 0.4:       # a class of its own with units
+                own = ent(uc, "unitClassDefinition", f"verifUnits{tag}{rng.randint(0, 99)}", [("defaultUnits", f"vu{tag}")])
+                ent(own, "unit", f"vu{tag}{rng.randint(0, 9)}", [("unitSymbol", None)] if rng.random() < 0.5 else [])
+            elif k < 0.7:     # bare placeholder of a partner class + a unit (new, or clashing with a partner unit)
+                ph = ent(uc, "unitClassDefinition", rng.choice(std_names["unit_classes"]), [], desc=None)
+                r = rng.random()
+                if r < 0.5:
+                    ent(ph, "unit", f"vunit{tag}{rng.randint(0, 99)}", [])
+                elif r < 0.75:
+                    ent(ph, "unit", rng.choice(std_names["units"]), [])                 # same key: duplicate
+                else:
+                    u = rng.choice(std_names["units"])
+                    ent(ph, "unit", u.upper() if u.upper() != u else u.lower(), [("unitSymbol", None)] if rng.random() < 0.5 else [])
+            else:             # a partner's class name WITH attributes: not a placeholder -> duplicate
+                ent(uc, "unitClassDefinition", rng.choice(std_names["unit_classes"]), [("defaultUnits", "s")])
+        for key, sec, item, _ in SECTIONS:
+            if sec is None or key == "unit_classes":
+                continue
+            for _ in range(rng.choice([0, 0, 1, 2])):
+                k = rng.random()
+                name = f"verif{key[:4]}{tag}{rng.randint(0, 99)}" if k < 0.65 else rng.choice(std_names[key])
+                if 0.85 < k:      # differs in case only: these sections are case-sensitive -> no duplicate
+                    name = name.upper() if name.upper() != name else name.lower()
+                attrs = {"unit_modifiers": [("SIUnitModifier", None)], "value_classes": [("allowedCharacter", "letters")]}.get(key, [])
+                ent(root.find(sec), item, name, attrs)
+        libs.append((ET.tostring(root, encoding="unicode"), read_sections(root, True)))
+    reqs = []
+    for _, lib in libs:
+        for key, _, _, _ in SECTIONS:
+            reqs.append({"op": "c13.sections", "base": base[key], "lib": lib[key], "am": False,
+                         "placeholder": key == "unit_classes", "units": key == "units"})
+    ans = iter(ctx.model.batch(reqs))
+
+    def view(e):
+        a = {k: ("" if v is True else str(v)) for k, v in e.attributes.items()}
+        lib = "inLibrary" in a
+        a.pop("inLibrary", None)
+        return {"name": e.name, "attrs": sorted([k, v] for k, v in a.items()), "lib": lib}
+    for xml_text, lib in libs:
+        try:
+            s = from_string(xml_text)
+        except HedFileError as e:
+            ctx.count(f"synthetic-sections:loader-refused:{e.code}")
+            for _ in SECTIONS:
+                next(ans)
+            continue
+        for key, _, _, hk in SECTIONS:
+            m = next(ans)
+            sec = s._sections[getattr(HedSectionKey, hk)]
+            case = {"synthetic-sections": key, "library": lib[key]}
+            ctx.case(("synthetic-sections", key, json.dumps(lib[key])), nontrivial=bool(lib[key]))
+            dup = bool(sec.duplicate_names)
+            ctx.count(f"synthetic-sections:{key}:" + ("duplicate" if dup else "merged" if lib[key] else "untouched"))
+            # direct oracle, from the XML alone: a key offered twice (partner + library, or library twice) must be on
+            # record as a duplicate, a bare placeholder of a partner's unit class excepted; nothing else may be
+            def skey(e):
+                if key == "units" and not any(k == "unitSymbol" for k, _ in e["attrs"]):
+                    return e["name"].casefold()
+                return e["name"]
+            seen, want = {skey(e) for e in base[key]}, False
+            for e in lib[key]:
+                if skey(e) in seen:
+                    want = want or not (key == "unit_classes" and not e["attrs"])
+                else:
+                    seen.add(skey(e))
+            if want != dup:
+                ctx.violation("shared-section-name-not-recorded-as-duplicate" if want else "spurious-section-duplicate",
+                              case, sorted(sec.duplicate_names))
+            if dup != ("err" in m):
+                ctx.disagree("mergeSection refuses = the section records a duplicate", case, m.get("dups", "ok"), sorted(sec.duplicate_names))
+                continue
+            if dup:
+                continue
+            impl = [view(e) for e in sec.all_names.values()]
+            mine = [{"name": e["name"], "attrs": sorted(e["attrs"]), "lib": e["lib"]} for e in m["ok"]]
+            if mine != impl:
+                ctx.disagree("mergeSection = the loaded section (names in order, attributes, inLibrary)", case,
+                             [x for x in mine if x not in impl][:4], [x for x in impl if x not in mine][:4])
+            for k in ("base_kept", "lib_present", "prefix_kept"):
+                if not m[k]:
+                    ctx.disagree(f"section_conservative evaluated: {k}", case, m[k], True)
+            # direct oracle: the partner's entries are there, first, with the attributes our reader sees in the partner's file
+            if impl[:len(base[key])] != [{"name": e["name"], "attrs": e["attrs"], "lib": False} for e in base[key]]:
+                ctx.violation("standard-section-entry-changed-in-merged", case, key)
+    ctx.check_time()
+
+
 def run_prefix_syntax(ctx, load_schema_version):
     from hed.errors.exceptions import HedFileError
     pres = ["sc", "sc:", "s1", "s1:", "", ":", "a-b", "Ab", "abc:", "a b", "x_", "1", "é"]
@@ -1050,6 +1196,7 @@ def run(ctx):
         run_load_matrix(ctx, hed[2])
         run_merge(ctx, hed, from_string, tmp)
         synthetic_libs(ctx, from_string, hed[2], tmp)
+        synthetic_sections(ctx, from_string, hed[2])
         synthetic_required(ctx, hed, from_string, HedSchemaGroup)
         case_collision(ctx, hed)
         capitalisation_probe(ctx, hed)
